@@ -1,7 +1,7 @@
 """C12 - serialising a graph and reading it back gives an equal graph."""
 from checks._simple import run_simple
 
-PROVED_TARGETS = []
+PROVED_TARGETS = ["earthkit.workflows.graph.nodes:Output.serialise", "earthkit.workflows.graph.nodes:Node.get_output", "earthkit.workflows.graph.nodes:Node.serialise"]
 
 
 def run(tier, seed):
